@@ -12,14 +12,12 @@ popped every undecided package with a positive term is in the queue (`C14_pick_s
 `choose_version` is asked about has a queued priority that is maximal among ALL of them
 (`C14_choose_is_maximal`).  The model's queue is a map package ↦ last pushed priority and `pop` is "a
 maximum, whichever the heap returns" (an input of the model), so this covers every tie-breaking.
-Open: that the *queued* priority of a package is the answer to the most recent `prioritize` request for
-that package *and* that this request carried its current set (freshness: a trace-level statement; the
-structure is there — a package whose term changed is pending and is re-prioritised before the pop —
-but the trace bookkeeping is not proved).  Covered on every recorded run by the oracle that recomputes,
-from the snapshots and the recorded `prioritize` calls, the last reported priority and set of every
-undecided positive package at every `choose_version`.
+`C14_full` is the property as stated, on the callback trace: whenever `choose_version(p, ·)` is
+requested, every package q with a positive requirement and no selected version had its most recent
+priority reported for exactly its current set, and that priority is at most p's most recent one.
 -/
 import PubgrubProofs.PSInvariant
+import PubgrubProofs.Freshness
 
 namespace Pubgrub.C14
 open Pubgrub
@@ -51,5 +49,17 @@ theorem C14_choose_is_maximal (W : World P S V M) (hW : W.SetsValid) (debug : Bo
       ∀ p' pa' set', s.st.ps.getPA p' = some pa' → pa'.inter = .derivations (.pos set') →
         ∃ pr', SmallMap.get q p' = some pr' ∧ pr' ≤ pr :=
   choose_is_maximal W hW debug fuel root rv s q p h set s' hstep
+
+/-- C14 -/
+theorem C14_full (W : World P S V M) (hW : W.SetsValid) (debug : Bool)
+    (fuel : Nat) (root : P) (rv : V) (as : List (Answer P S V M Pr E))
+    (hok : AnswersOK W debug fuel root rv as) (k : Nat) (p : P) (s : S)
+    (hk : (Solver.trace debug fuel root rv as)[k + 1]? = some (.chooseVersion p s))
+    (q : P) (pa : PackageAssignments S V) (setq : S)
+    (hq : (Solver.after (Solver.start debug fuel root rv) (as.take k)).1.st.ps.getPA q = some pa)
+    (hpos : pa.inter = .derivations (.pos setq)) :
+    ∃ prq prp, lastPrio (Solver.trace debug fuel root rv as) as k q = some (setq, prq) ∧
+      (∃ sp, lastPrio (Solver.trace debug fuel root rv as) as k p = some (sp, prp)) ∧ prq ≤ prp :=
+  choose_has_maximal_last_priority W hW debug fuel root rv as hok k p s hk q pa setq hq hpos
 
 end Pubgrub.C14
